@@ -108,7 +108,7 @@ impl Scenario for LairScn {
         "lair".into()
     }
     fn root_labels(&self) -> Vec<String> {
-        vec!["fresh".into(), "alice-bonded-and-unbonding".into()]
+        vec!["fresh".into(), "alice-bonded-and-unbonding".into(), "18-decimals-scale: bob bonded 3e19, carol 3e19+1".into()]
     }
     fn setup(&self, root: usize, w: &mut World) -> (BondHub, LG) {
         let h = deploy_bonding(w, self.period_ns, Decimal::zero(), 2, GENESIS_TIME_NS + 10 * DAY_NS, native(BD[0]));
@@ -127,6 +127,15 @@ impl Scenario for LairScn {
             *g.bonded.get_mut(&(u.clone(), BD[0].to_string())).unwrap() -= 300;
             g.unbonding.push((u, BD[0].to_string(), w.time_ns(), 300));
             w.advance(7, 1);
+        }
+        if root == 2 {
+            // amounts above 2^64 base units (an 18-decimals asset): two large bonders and alice's usual small amounts
+            for (u, amt) in [(self.users[1].clone(), 30_000_000_000_000_000_000u128), (self.users[2].clone(), 30_000_000_000_000_000_001u128)] {
+                w.mint_native(&u, amt, BD[0]);
+                w.exec(&u, &h.lair, &LairExec::Bond { asset: asset(&native(BD[0]), amt) }, &[coin(amt, BD[0])]).expect("large root bond");
+                g.bonded.insert((u.clone(), BD[0].to_string()), amt);
+            }
+            w.advance(5, 1);
         }
         (h, g)
     }
